@@ -9,7 +9,7 @@ Extraction Language OCaml.
 Extraction "model.ml"
   text_compact text_multiline json_render json_render_old debug_page debug_entry debug_body path_base
   text_compact_data text_multiline_data json_render_data json_render_data_old debug_message
-  text_signal text_compact_signal json_member state_data
+  text_signal text_compact_signal json_member state_data append_to append_text can_frame
   frame_of unmarshal reset_state frame_valid dispatch
   unmarshal_unsigned unmarshal_signed unmarshal_bool unmarshal_value_description
   Z.add Z.mul Z.sub Z.ltb Z.leb Z.eqb Z.of_nat Z.to_nat Z.pow Z.modulo Z.div Z.land Z.lor.
